@@ -379,6 +379,10 @@ func relevant(asserts []*Term, goal *Term) []*Term {
 					}
 				}
 			}
+			// definitions of relevant names (heap versions, including allocation maps)
+			if !hit && it.t.Op == "=" && it.t.Args[0].Op == "var" && rel[it.t.Args[0].Name] {
+				hit = true
+			}
 			if hit {
 				it.in = true
 				changed = true
